@@ -271,6 +271,14 @@ func (core *JApiCore) checkPathSchemaPropertyInAllOf(typeName string) error {
 }
 
 func (core *JApiCore) checkPathSchemaProperty(an schema.ASTNode, seen map[string]struct{}) error {
+	if an.IsKeyShortcut {
+		// The property doesn't describe a parameter of the path, so it is never
+		// compiled, but the type which is its key has to exist all the same.
+		if _, ok := core.catalog.UserTypes.Get(an.Key); !ok {
+			return fmt.Errorf(`%s (%s)`, jerr.UserTypeNotFound, an.Key)
+		}
+	}
+
 	if an.TokenType == schema.TokenTypeObject || an.TokenType == schema.TokenTypeArray {
 		return fmt.Errorf("%s (%s)", jerr.PathMultiLevelPropertyErr, an.Key)
 	}
